@@ -78,8 +78,9 @@ impl<T: Copy> Block for VectorSink<T> {
         if n > 0 {
             storage.0.extend(&i.slice()[..n]);
             storage.1.extend(tags);
-            i.consume(ilen);
         }
+        // Whatever doesn't fit is dropped.
+        i.consume(ilen);
         Ok(BlockRet::WaitForStream(&self.src, 1))
     }
 }
